@@ -39,9 +39,12 @@ type C06Case struct {
 	Kind    int     `json:"kind"` // 0 stateful, 1 stateless, 2 sessions disabled, 3 legacy SSE, 4 stdio
 	PostSSE bool    `json:"postsse,omitempty"`
 	Ops     []C06Op `json:"ops"`
+	Filter  bool    `json:"filter,omitempty"` // the HTTP servers are built with a tool list filter that hides one of the two tools
 }
 
-var c06Bodies = []string{"valid-ping", "valid-call", "valid-list", "valid-notif", "valid-init", "valid-initialized", "valid-initialized", "response-unsolicited", "lattice", "lattice", "lattice",
+var c06Cursors = []string{`"1"`, `"2"`, `"3"`, `"0"`, `"-1"`, `"abc"`, `""`, `1`, `2`, `null`, `"99999999999999999999"`, `{"a":1}`, `[2]`, `"MQ=="`, `"Mg=="`, `true`, `1.5`}
+
+var c06Bodies = []string{"list-cursor", "blank-lines", "valid-ping", "valid-call", "valid-list", "valid-notif", "valid-init", "valid-initialized", "valid-initialized", "response-unsolicited", "lattice", "lattice", "lattice",
 	"weird-id-error", "truncated", "garbage", "garbage", "invalid-utf8", "deep-array", "deep-object", "large", "nonobject", "empty", "trailing", "bom", "nul", "huge-number", "float-id", "long-method", "ws-only"}
 
 var (
@@ -86,6 +89,12 @@ func c06Body(op C06Op, stdio bool) (body []byte, malformed bool, expectID string
 		return []byte(validCall), false, "5"
 	case "valid-list":
 		return []byte(`{"jsonrpc":"2.0","id":6,"method":"tools/list"}`), false, "6"
+	case "list-cursor":
+		// a paging cursor the server never issued, of every JSON type
+		m := []string{"tools/list", "tools/list", "prompts/list", "resources/list", "resources/templates/list"}[op.Variant%5]
+		return []byte(`{"jsonrpc":"2.0","id":6,"method":"` + m + `","params":{"cursor":` + c06Cursors[op.N%len(c06Cursors)] + `}}`), false, ""
+	case "blank-lines":
+		return []byte{}, !stdio, ""
 	case "valid-init":
 		return InitRequest("\"i2\"", "2025-03-26"), false, `"i2"`
 	case "valid-initialized":
@@ -148,7 +157,7 @@ func c06Body(op C06Op, stdio bool) (body []byte, malformed bool, expectID string
 }
 
 func genC06(t *rapid.T) C06Case {
-	c := C06Case{Kind: rapid.SampledFrom([]int{0, 0, 1, 2, 3, 3, 4, 4}).Draw(t, "kind"), PostSSE: rapid.Bool().Draw(t, "postsse")}
+	c := C06Case{Kind: rapid.SampledFrom([]int{0, 0, 1, 2, 3, 3, 4, 4}).Draw(t, "kind"), PostSSE: rapid.Bool().Draw(t, "postsse"), Filter: rapid.Bool().Draw(t, "filter")}
 	n := rapid.IntRange(1, 8).Draw(t, "nops")
 	for i := 0; i < n; i++ {
 		op := C06Op{Body: rapid.SampledFrom(c06Bodies).Draw(t, "body"), N: rapid.IntRange(0, 1<<20).Draw(t, "n"), Variant: rapid.IntRange(0, 1<<16).Draw(t, "variant")}
@@ -224,6 +233,14 @@ func execC06(c C06Case) *Failure {
 	return nil
 }
 
+func c06OpNames(c C06Case) string {
+	var n []string
+	for _, op := range c.Ops {
+		n = append(n, op.Body)
+	}
+	return strings.Join(n, ",")
+}
+
 func execC06Stdio(c C06Case) *Failure {
 	w := NewWorld(ModeStdio, c06Reg, WorldOpt{})
 	defer w.Close()
@@ -278,6 +295,17 @@ func execC06Stdio(c C06Case) *Failure {
 			conn.lines = len(all)
 			continue
 		}
+		if op.Body == "blank-lines" {
+			// empty, blank and bare-CR lines carry no message: they are skipped, however many there are
+			k := 1 + op.N%300
+			forms := []string{"\n", "\r\n", "  \t\n", "\n"}
+			var sb strings.Builder
+			for j := 0; j < k; j++ {
+				sb.WriteString(forms[(j+op.Variant)%len(forms)])
+			}
+			conn.in.Write([]byte(sb.String()))
+			continue
+		}
 		body, malformed, wantID := c06Body(op, true)
 		body = bytes.ReplaceAll(body, []byte("\n"), []byte(" "))
 		expect := ""
@@ -313,8 +341,14 @@ func execC06Stdio(c C06Case) *Failure {
 		}
 		_ = expect
 	}
+	if conn.in.Stuck() {
+		return TimingFailf("C06/stdio-stops-reading", "stdio: after ops %s the server stopped reading its input (a write of one line waited %v in vain)", c06OpNames(c), Patience()+5*time.Second)
+	}
 	// the next well-formed request is served normally
 	ex := conn.Send([]byte(`{"jsonrpc":"2.0","id":"after","method":"ping"}`), `"after"`, Patience())
+	if conn.in.Stuck() {
+		return TimingFailf("C06/stdio-stops-reading", "stdio: after ops %s the server stopped reading its input (a write of one line waited %v in vain)", c06OpNames(c), Patience()+5*time.Second)
+	}
 	ok := false
 	for _, fr := range ex.Frames {
 		if id, has := rawIDOf(fr); has && id == `"after"` && isResponseFrame(fr) && !bytes.Contains(fr, []byte(`"error"`)) {
@@ -352,6 +386,16 @@ func (c *Conn) sendStdioAny(line []byte, waitForError bool, bound time.Duration)
 	return ex
 }
 
+func c06HideBeta(ctx context.Context, tools []*mcp.Tool) []*mcp.Tool {
+	var out []*mcp.Tool
+	for _, t := range tools {
+		if t.Name != "beta" {
+			out = append(out, t)
+		}
+	}
+	return out
+}
+
 func execC06HTTP(c C06Case) *Failure {
 	legacy := c.Kind == 3
 	var h http.Handler
@@ -360,7 +404,11 @@ func execC06HTTP(c C06Case) *Failure {
 	basePath := "/mcp"
 	w := &World{Calls: map[string]int{}}
 	if legacy {
-		sse = mcp.NewSSEServer("c06", "1", mcp.WithSSEServerLogger(nopLogger{}), mcp.WithKeepAlive(false))
+		sopts := []mcp.SSEOption{mcp.WithSSEServerLogger(nopLogger{}), mcp.WithKeepAlive(false)}
+		if c.Filter {
+			sopts = append(sopts, mcp.WithSSEToolListFilter(c06HideBeta))
+		}
+		sse = mcp.NewSSEServer("c06", "1", sopts...)
 		w.Register(RegistrarOf(sse), c06Reg)
 		h = sse
 	} else {
@@ -369,6 +417,9 @@ func execC06HTTP(c C06Case) *Failure {
 			opts = append(opts, mcp.WithStatelessMode(true))
 		} else if c.Kind == 2 {
 			opts = append(opts, mcp.WithoutSession())
+		}
+		if c.Filter {
+			opts = append(opts, mcp.WithToolListFilter(c06HideBeta))
 		}
 		srv = mcp.NewServer("c06", "1", opts...)
 		w.Register(RegistrarOf(srv), c06Reg)
